@@ -584,11 +584,11 @@ theorem not_strictStop : ¬ StrictStop := by
   decide +kernel
 
 /-- **time_based_stop_partial.**  Without throttling (no target throughput, built-in schedule), without
-    ramp-up and when parameter generation and the runner's work before the wire request take no time,
+    ramp-up and when parameter generation and the runner's work before its first wire request take no time,
     the literal statement holds: every request is issued strictly before the deadline. -/
 theorem time_based_stop_partial (R : Run) (p : Rat) (hp : R.t.period = some p)
     (hun : targetThroughput R.c.r R.tt R.ti = .ok none) (hramp : R.t.rampUp = none)
-    (hzero : ∀ q ∈ R.reqs, q.gen ≤ 0 ∧ q.pre ≤ 0) :
+    (hzero : ∀ q ∈ R.reqs, q.gen ≤ 0 ∧ ∃ g sv f rest, q.prog = .wire g sv f :: rest ∧ g ≤ 0) :
     ∀ rec ∈ R.f.out.recs, rec.reqStart < R.c.t0 + (R.t.warmupT.getD 0 + p) := by
   have hr := R.exact
   obtain ⟨tp, sched, htp, hs, hw, hloop, hout, _⟩ := R.inv
@@ -608,8 +608,8 @@ theorem time_based_stop_partial (R : Run) (p : Rat) (hp : R.t.period = some p)
   rw [hout]
   refine go_recs_forall (c := R.c)
     (fun st => st.sched = .plain ∧ st.loop = .time (R.t.warmupT.getD 0) (some (R.t.warmupT.getD 0 + p)) R.c.t0 st.now)
-    (fun q => q.gen ≤ 0 ∧ q.pre ≤ 0) _ ?_ R.reqs _ ?_ hzero
-  · intro st q rec st' ⟨hsp, hlp⟩ ⟨hg, hpre⟩ hfin hs
+    (fun q => q.gen ≤ 0 ∧ ∃ g sv f rest, q.prog = .wire g sv f :: rest ∧ g ≤ 0) _ ?_ R.reqs _ ?_ hzero
+  · intro st q rec st' ⟨hsp, hlp⟩ ⟨hg, g, sv, f, rest, hprog, hpre⟩ hfin hs
     obtain ⟨ops, unit, m, sched', _, _, ha, hrec, hst'⟩ := step_sampled_inv hs
     rw [time_finished hr hlp] at hfin
     have hlt : st.now < R.c.t0 + (R.t.warmupT.getD 0 + p) := by simpa using hfin
@@ -619,7 +619,7 @@ theorem time_based_stop_partial (R : Run) (p : Rat) (hp : R.t.period = some p)
       simp only [genDone, sleep_eq hr]; rw [if_neg (not_lt.mpr hg)]
     have hps : procStartOf R.c st q = st.now := by simp [procStartOf, hth, hgd]
     have hrs : reqStartOf R.c st q = st.now := by
-      simp only [reqStartOf, sleep_eq hr]; rw [if_neg (not_lt.mpr hpre), hps]
+      rw [reqStart_of_first_wire hr st q hprog, sleep_eq hr, if_neg (not_lt.mpr hpre), hps]
     subst hrec hst'
     refine ⟨by simp only [recOf]; rw [hrs]; exact hlt, ?_, ?_⟩
     · rw [hsp] at ha
